@@ -146,10 +146,32 @@ type plan struct {
 	// Unnumber, back to "not yet assigned".
 	Constructed bool  `json:",omitempty"`
 	Unnumber    []int `json:",omitempty"`
+	// Stale: address spaces were assigned after construction without refreshing the cached types
+	// (emit.ModuleWith(m, true)): the caches of such globals, functions and allocas still say addrspace 0.
+	Stale bool `json:",omitempty"`
 }
 
 // unprint takes a parsed module back to the state of one built through the API and never printed.
-func unprint(m *ir.Module, unnumber []int) {
+func unprint(m *ir.Module, unnumber []int, stale bool) {
+	if stale {
+		for _, g := range m.Globals {
+			if g.AddrSpace != 0 && g.Typ != nil {
+				g.Typ = types.NewPointer(g.Typ.ElemType)
+			}
+		}
+		for _, f := range m.Funcs {
+			if f.AddrSpace != 0 && f.Typ != nil {
+				f.Typ = types.NewPointer(f.Typ.ElemType)
+			}
+			for _, b := range f.Blocks {
+				for _, in := range b.Insts {
+					if a, ok := in.(*ir.InstAlloca); ok && a.AddrSpace != 0 && a.Typ != nil {
+						a.Typ = types.NewPointer(a.Typ.ElemType)
+					}
+				}
+			}
+		}
+	}
 	type named interface {
 		IsUnnamed() bool
 		SetID(int64)
@@ -399,7 +421,7 @@ func TestReplay(t *testing.T) {
 						if err != nil || p != nil {
 							return nil
 						}
-						unprint(m, pl.Unnumber)
+						unprint(m, pl.Unnumber, pl.Stale)
 						return m
 					})
 					continue
@@ -431,6 +453,8 @@ func TestConstructedModules(t *testing.T) {
 		cfg.Off = map[string]bool{"retattr-align": true, "freeze-metadata": true}
 		am_, _ := gen.Module(rt, cfg)
 		am_.Order = nil
+		// one case in three uses the API naively: address spaces assigned after construction, cached types left as they were
+		stale := rapid.IntRange(0, 2).Draw(rt, "staleTypes") == 0
 		unnumber := map[int]bool{}
 		var unl []int
 		for i := range am_.MDs {
@@ -441,7 +465,7 @@ func TestConstructedModules(t *testing.T) {
 		}
 		mk := func() *ir.Module {
 			var m *ir.Module
-			if p := lx.Guard(func() { m, _ = emit.Module(am_) }); p != nil {
+			if p := lx.Guard(func() { m, _ = emit.ModuleWith(am_, stale) }); p != nil {
 				return nil
 			}
 			for i, d := range m.MetadataDefs {
@@ -452,7 +476,7 @@ func TestConstructedModules(t *testing.T) {
 			return m
 		}
 		pl := genPlan(rt)
-		pl.Constructed, pl.Unnumber = true, unl
+		pl.Constructed, pl.Unnumber, pl.Stale = true, unl, stale
 		// the never-printed state is what a constructed module adds: start there three times out of four
 		if pl.Printed && rapid.IntRange(0, 1).Draw(rt, "unprinted") == 0 {
 			pl.Printed = false
@@ -472,6 +496,7 @@ func TestConstructedModules(t *testing.T) {
 		checkCaseWith(rt, test, am_.Text(), pl, mk)
 		hx.NonTrivial(fmt.Sprintf("%v|%v|%s", pl, unnumber, am_.Text()))
 		hx.Hist(fmt.Sprintf("constructed/start_printed/%v", pl.Printed))
+		hx.Hist(fmt.Sprintf("constructed/stale_cached_types/%v", stale))
 		hx.Hist(fmt.Sprintf("constructed/never_printed_with_unnumbered_metadata/%v", !pl.Printed && len(unl) > 0))
 	})
 }
